@@ -2,6 +2,9 @@ import CookModel.Analysis.Collector
 import CookModel.Lemmas.Blocks
 import CookModel.Lemmas.MetaAgree
 import CookModel.Lemmas.CollectorAgree
+import CookModel.Lemmas.MetaFront
+import CookModel.Lemmas.MetaDiagsParser
+import CookModel.Lemmas.MetaDiagsFront
 /-
   C14  Metadata-only parsing agrees with full parsing.
 
@@ -16,8 +19,19 @@ import CookModel.Lemmas.CollectorAgree
     events never touch that part of the collector, and a metadata event's effect on it depends only
     on it;
   * with front matter the metadata-only scanner emits exactly the front-matter event the full parser
-    starts with (`C14_front_matter_same_event`); the agreement of the analyses in that case is
-    decided per run (oracle: both outputs' metadata equal) and against the model.
+    starts with (`C14_front_matter_same_event`, `C14_front_matter_split_same`); every other
+    metadata-carrying event of the full parser is then a `[config]` entry under MODES
+    (`C14_front_matter_only_config_entries`), which after front matter never touches the metadata
+    (`C14_config_entry_keeps_metadata_after_front_matter`);
+  * hence `C14_agree`, for EVERY input (with or without front matter), every character table,
+    extension set and environment: whenever both analyses have output, the metadata parts are equal.
+  (The YAML text of the front matter is carried by the event as a slice of the input; decoding it
+  is `serde_yaml`, outside the model: both entry points hand the same slice at the same offset to
+  the same collector code, in the same initial state.)
+  * diagnostics: without front matter the analysis diagnostics about metadata (five kinds) are the
+    same in both reports (`C14_metadata_diagnostics_agree_partial`); for every input the three
+    kinds about `>>` values are (`C14_std_metadata_diagnostics_agree`); with front matter the
+    `config-*` kinds differ by design (the metadata-only parser stops after the front matter).
 -/
 namespace Cook
 variable {α : Type} [Arith α]
@@ -171,7 +185,7 @@ theorem C14_metadata_events_agree (cs : CharSpec) (ext : Ext) (input : List Char
     Missing for the full clause (hence `_partial`): inputs WITH front matter (there the
     metadata-only parser stops after the front-matter event while the full parser still processes
     `>> [config]: …` lines when the MODES extension is on; what is proved for that case is
-    `C14_front_matter_same_event`). -/
+    `C14_front_matter_same_event`).  The full clause is `C14_agree` below. -/
 theorem C14_agree_partial (env : Env) (input : Str) (h : parseFrontmatter env.cs input = none)
     (r1 r2 : Col α) (h1 : (parseRecipe (α := α) env input).output = some r1)
     (h2 : (parseMetadata (α := α) env input).output = some r2) :
@@ -193,6 +207,205 @@ theorem C14_metadata_event_depends_on_metadata_only (env : Env) (k v : Text) (s 
     (h : s.ms = s'.ms) :
     ((processEvent (α := α) env [] (.metadata k v) s).2).ms = ((processEvent (α := α) env [] (.metadata k v) s').2).ms :=
   ((sm_metadataA env k v).run s s' h).2
+
+/-- (1) Both entry points split the front matter identically: when `parse_frontmatter` finds a
+    front-matter block, the metadata-only parser emits exactly one event, the front-matter event
+    with the YAML slice at its offset, and the metadata-carrying events of the full parser start
+    with that very event (same text, same offset); the full parser goes on with the rest of the
+    input, lexed from `cookOffset`. -/
+theorem C14_front_matter_split_same (cs : CharSpec) (ext : Ext) (input : List Char) (fm : FrontMatter)
+    (h : parseFrontmatter cs input = some fm) :
+    (pullMetaEvents (α := α) cs ext input).1.toList = [.frontMatter (Text.fromStr fm.yamlText fm.yamlOffset)] ∧
+    ((pullEvents (α := α) cs ext input).1.toList.filter Ev.isKey).head? =
+      some (.frontMatter (Text.fromStr fm.yamlText fm.yamlOffset)) := by
+  refine ⟨mfront_pullMetaEvents cs ext input fm h, ?_⟩
+  obtain ⟨L, e, _⟩ := mfront_pullEvents (α := α) cs ext input fm h
+  unfold metaOf at e
+  rw [e]; rfl
+
+/-- (1, continued) After the split the full parser is the ordinary block loop, with
+    `old_style_metadata = false`, over the tokens of the cooklang part lexed at `cookOffset`,
+    started with the front-matter event in the queue.  (That `cookText`/`yamlText` are the input
+    slices at `cookOffset`/`yamlOffset` is `C04_frontmatter_offsets`, `C04_frontmatter_yaml_slice`.) -/
+theorem C14_full_parser_after_front_matter (cs : CharSpec) (ext : Ext) (input : List Char) (fm : FrontMatter)
+    (h : parseFrontmatter cs input = some fm) :
+    pullEvents (α := α) cs ext input =
+      (allBlocks ((lexFrom cs fm.cookOffset fm.cookText).length + 1) (lexFrom cs fm.cookOffset fm.cookText)).foldl
+        (fun acc b => runBlock cs ext false b acc.1 acc.2)
+        (#[.frontMatter (Text.fromStr fm.yamlText fm.yamlOffset)], none) := by
+  unfold pullEvents
+  simp only [h]
+
+/-- (2a) With front matter the full parser runs every block with `old_style_metadata = false`:
+    besides the front-matter event, the only metadata-carrying events it emits are `>> [key]: value`
+    config entries, and those only when the MODES extension is on.  (Ordinary `>>` lines are parsed
+    as steps/text.) -/
+theorem C14_front_matter_only_config_entries (cs : CharSpec) (ext : Ext) (input : List Char) (fm : FrontMatter)
+    (h : parseFrontmatter cs input = some fm) :
+    ∃ L, (pullEvents (α := α) cs ext input).1.toList.filter Ev.isKey =
+        .frontMatter (Text.fromStr fm.yamlText fm.yamlOffset) :: L ∧
+      ∀ ev ∈ L, ∃ k v, ev = .metadata k v ∧ isConfigKey cs k = true ∧ ext.has Gen.EXT_MODES = true :=
+  mfront_pullEvents cs ext input fm h
+
+/-- (2b) Once the front-matter event is processed (`old_style_metadata = false`), a config entry
+    under MODES leaves the metadata part of the collector untouched: it switches a mode, or reports
+    `config-invalid-value` / `config-unknown-key`; the unknown key is NOT inserted in the map. -/
+theorem C14_config_entry_keeps_metadata_after_front_matter (env : Env) (input : Str) (k v : Text)
+    (hk : isConfigKey env.cs k = true) (hx : env.ext.has Gen.EXT_MODES = true)
+    (s : Col α) (ho : s.oldStyle = false) :
+    ((processEvent env input (.metadata k v) s).2).ms = s.ms :=
+  (pf_metadataA_cfg (α := α) s.ms ho env k v hk hx).run s rfl
+
+/-- With front matter, whenever the full parse has output, its `>>`-metadata is empty: the map,
+    the std-key locations, the servings and the old-style spans are the initial ones, and the front
+    matter recorded is the YAML slice of the split.  (`>>` lines after front matter never become
+    metadata, under any extension set.) -/
+theorem C14_front_matter_full_metadata (env : Env) (input : Str) (fm : FrontMatter)
+    (h : parseFrontmatter env.cs input = some fm) (r1 : Col α)
+    (h1 : (parseRecipe (α := α) env input).output = some r1) :
+    r1.metaMap = [] ∧ r1.metaLocs = [] ∧ r1.servings = none ∧ r1.oldStyleUsed = [] ∧
+    r1.frontMatter = some (Text.fromStr fm.yamlText fm.yamlOffset) ∧ r1.oldStyle = false := by
+  have e := analysis_front_full env input fm h r1 h1
+  exact ⟨congrArg MS.metaMap e, congrArg MS.metaLocs e, congrArg MS.servings e,
+    congrArg MS.oldStyleUsed e, congrArg MS.frontMatter e, congrArg MS.oldStyle e⟩
+
+/-- With front matter `parse_metadata` always has output (its only event is the front-matter
+    event; no parse error can occur), with the same metadata part as above. -/
+theorem C14_front_matter_meta_only_has_output (env : Env) (input : Str) (fm : FrontMatter)
+    (h : parseFrontmatter env.cs input = some fm) :
+    ∃ r2 : Col α, (parseMetadata (α := α) env input).output = some r2 ∧
+      r2.metaMap = [] ∧ r2.metaLocs = [] ∧ r2.servings = none ∧ r2.oldStyleUsed = [] ∧
+      r2.frontMatter = some (Text.fromStr fm.yamlText fm.yamlOffset) ∧ r2.oldStyle = false := by
+  obtain ⟨r2, e2, e⟩ := analysis_front_meta (α := α) env input fm h
+  exact ⟨r2, e2, congrArg MS.metaMap e, congrArg MS.metaLocs e, congrArg MS.servings e,
+    congrArg MS.oldStyleUsed e, congrArg MS.frontMatter e, congrArg MS.oldStyle e⟩
+
+/-- **`C14_agree`**, full clause: for EVERY input — with or without a YAML front-matter block —
+    every character table, extension set, converter and std-metadata checker: whenever both `parse`
+    and `parse_metadata` have output, the metadata parts of the two results are equal: the `>>`
+    metadata map (same keys, values, insertion order), the locations of the standard keys, the
+    parsed servings, the spans of the deprecated old-style entries, the front-matter slice handed
+    to the YAML decoder (text and offset) and the `old_style_metadata` flag.
+    The content of the YAML block is not interpreted by the model (`serde_yaml` is external): what
+    is proved is that both entry points give the decoder the same slice, from the same collector
+    state; whatever function of that slice the decoder computes is therefore the same in both. -/
+theorem C14_agree (env : Env) (input : Str)
+    (r1 r2 : Col α) (h1 : (parseRecipe (α := α) env input).output = some r1)
+    (h2 : (parseMetadata (α := α) env input).output = some r2) :
+    r1.metaMap = r2.metaMap ∧ r1.metaLocs = r2.metaLocs ∧ r1.servings = r2.servings ∧
+    r1.oldStyleUsed = r2.oldStyleUsed ∧ r1.frontMatter = r2.frontMatter ∧ r1.oldStyle = r2.oldStyle := by
+  have e := analysis_agree_all env input r1 r2 h1 h2
+  exact ⟨congrArg MS.metaMap e, congrArg MS.metaLocs e, congrArg MS.servings e,
+    congrArg MS.oldStyleUsed e, congrArg MS.frontMatter e, congrArg MS.oldStyle e⟩
+
+/-- The DIAGNOSTICS about metadata agree as well, for inputs without front matter: whenever both
+    `parse` and `parse_metadata` have output, the analysis-stage diagnostics of the kinds
+    `config-invalid-value`, `config-unknown-key`, `std-unsupported-value`, `time-overridden` and
+    `meta-deprecated` are the same in both reports — same severity, same labels, same order
+    (`Diag.isMeta` is that filter).  Ingredients: no other event of the full parser makes the
+    collector emit a diagnostic of these kinds (frame sweep over the collector, `pd_processEvent`),
+    every warning event of either parser is a parse-stage diagnostic (`pullEvents_warnOK`), and the
+    diagnostics a `Metadata` event causes depend only on the metadata collected so far
+    (`sd_metadataA`).
+    Partial: inputs WITH front matter are not covered, and cannot be for the two `config-*` kinds:
+    there the full parser still reports them for `>> [key]: value` lines under MODES, which the
+    metadata-only parser never sees.  The other three kinds agree for every input:
+    `C14_std_metadata_diagnostics_agree`. -/
+theorem C14_metadata_diagnostics_agree_partial (env : Env) (input : Str)
+    (h : parseFrontmatter env.cs input = none)
+    (r1 r2 : Col α) (h1 : (parseRecipe (α := α) env input).output = some r1)
+    (h2 : (parseMetadata (α := α) env input).output = some r2) :
+    r1.diags.toList.filter Diag.isMeta = r2.diags.toList.filter Diag.isMeta :=
+  congrArg MD.ds (analysis_agree_md env input h r1 r2 h1 h2)
+
+/-- For EVERY input (with or without front matter), every extension set and environment: whenever
+    both `parse` and `parse_metadata` have output, the analysis diagnostics about `>>` metadata
+    VALUES — `std-unsupported-value`, `time-overridden`, `meta-deprecated` (`Diag.isStdMeta`) —
+    are the same in both reports (severity, labels, order).  Without front matter this is a part of
+    `C14_metadata_diagnostics_agree_partial`; with front matter neither analysis reports one for a
+    `>>` line (`C14_front_matter_no_std_diagnostics`), the config entries the full parser still
+    processes report `config-*` kinds only.  (Diagnostics about the CONTENT of the YAML block come
+    from `serde_yaml`/`check_std_entry` on the decoded mapping, outside the model; both entry
+    points run that on the same slice from the same state.) -/
+theorem C14_std_metadata_diagnostics_agree (env : Env) (input : Str)
+    (r1 r2 : Col α) (h1 : (parseRecipe (α := α) env input).output = some r1)
+    (h2 : (parseMetadata (α := α) env input).output = some r2) :
+    r1.diags.toList.filter Diag.isStdMeta = r2.diags.toList.filter Diag.isStdMeta :=
+  congrArg Prod.snd (analysis_agree_sd env input r1 r2 h1 h2)
+
+/-- with front matter, the full analysis reports no `std-unsupported-value`, `time-overridden` or
+    `meta-deprecated` diagnostic for any `>>` line -/
+theorem C14_front_matter_no_std_diagnostics (env : Env) (input : Str) (fm : FrontMatter)
+    (h : parseFrontmatter env.cs input = some fm) (r1 : Col α)
+    (h1 : (parseRecipe (α := α) env input).output = some r1) :
+    r1.diags.toList.filter Diag.isStdMeta = [] :=
+  congrArg Prod.snd (analysis_front_full_sd env input fm h r1 h1)
+
+/-- the pieces, as statements about the collector: (1) an event that is neither `Metadata` nor front
+    matter (a parser warning being a parse-stage diagnostic) adds no metadata diagnostic … -/
+theorem C14_other_events_add_no_metadata_diagnostic (env : Env) (input : Str) (ev : Ev α)
+    (h : ev.isKey = false) (hw : ∀ d, ev = .warning d → d.stage = .parse) (s : Col α) :
+    ((processEvent env input ev s).2).diags.toList.filter Diag.isMeta = s.diags.toList.filter Diag.isMeta :=
+  congrArg MD.ds ((pd_processEvent s.md env input ev h hw).run s rfl)
+
+/-- … (2) every warning event of the full parser and of the metadata-only parser carries a
+    parse-stage diagnostic … -/
+theorem C14_parser_warnings_are_parse_stage (cs : CharSpec) (ext : Ext) (input : List Char) (d : Diag) :
+    (Ev.warning d ∈ (pullEvents (α := α) cs ext input).1.toList → d.stage = .parse) ∧
+    (Ev.warning d ∈ (pullMetaEvents (α := α) cs ext input).1.toList → d.stage = .parse) :=
+  ⟨fun h => pullEvents_warnOK cs ext input _ h d rfl, fun h => pullMetaEvents_warnOK cs ext input _ h d rfl⟩
+
+/-- … and (3) the metadata diagnostics a `Metadata` event adds depend only on the metadata part of
+    the collector and the metadata diagnostics so far. -/
+theorem C14_metadata_event_diagnostics_depend_on_metadata_only (env : Env) (k v : Text) (s s' : Col α)
+    (h : s.ms = s'.ms)
+    (hd : s.diags.toList.filter Diag.isMeta = s'.diags.toList.filter Diag.isMeta) :
+    ((processEvent (α := α) env [] (.metadata k v) s).2).diags.toList.filter Diag.isMeta =
+    ((processEvent (α := α) env [] (.metadata k v) s').2).diags.toList.filter Diag.isMeta := by
+  have hmd : s.md = s'.md := by simp only [Col.md, h, hd]
+  exact congrArg MD.ds ((sd_metadataA env k v).run s s' hmd).2
+
+/-! the filter is not trivial: it keeps the metadata kinds and drops the others and parse-stage ones -/
+example : Diag.isMeta ⟨.warning, .analysis, "meta-deprecated", [⟨0, 7⟩]⟩ = true ∧
+    Diag.isMeta ⟨.warning, .analysis, "std-unsupported-value", []⟩ = true ∧
+    Diag.isMeta ⟨.warning, .analysis, "redundant-new", []⟩ = false ∧
+    Diag.isMeta ⟨.warning, .parse, "empty-metadata-value", []⟩ = false := by decide
+example : Diag.isStdMeta ⟨.warning, .analysis, "time-overridden", [⟨0, 7⟩]⟩ = true ∧
+    Diag.isStdMeta ⟨.warning, .analysis, "config-unknown-key", []⟩ = false := by decide
+
+/-! non-vacuity of the front-matter case.  (`lexFrom` is defined by well-founded recursion, so whole
+    inputs with a non-empty cooklang part do not reduce by `rfl`; the pieces do.) -/
+def C14_exCs : CharSpec :=
+  ⟨fun c => c == ' ', fun _ => false, fun c => c == 'x', fun c => c == ' ' || c == '\n', fun c => c == 'x'⟩
+def C14_exEnv : Env := ⟨C14_exCs, ⟨Gen.EXT_MODES⟩, fun _ => none, fun _ _ => .ok, fun c => [c], 0⟩
+
+/-- an input with front matter (also after a blank line), the split and its offsets -/
+example : parseFrontmatter C14_exCs "\n---\na: 1\n---\n>> [mode]: steps\n".toList =
+    some ⟨"a: 1\n".toList, 5, ">> [mode]: steps\n".toList, 14⟩ := by rfl
+
+/-- both analyses have output on an input with front matter (so the hypotheses of `C14_agree` are
+    satisfiable in the front-matter case) -/
+example : (parseRecipe (α := Rat) C14_exEnv "---\na: 1\n---\n".toList).output.isSome = true ∧
+    (parseMetadata (α := Rat) C14_exEnv "---\na: 1\n---\n".toList).output.isSome = true := by
+  have h : parseFrontmatter C14_exCs "---\na: 1\n---\n".toList = some ⟨"a: 1\n".toList, 4, [], 13⟩ := by rfl
+  have hl : ∀ off, lexFrom C14_exCs off [] = [] := by intro off; unfold lexFrom; rfl
+  constructor
+  · unfold parseRecipe pullEvents
+    simp only [C14_exEnv, h, hl]
+    rfl
+  · obtain ⟨r2, e, _⟩ := C14_front_matter_meta_only_has_output (α := Rat) C14_exEnv _ _ h
+    rw [e]; rfl
+
+/-- the block `>> [m]: s` after front matter (`old_style_metadata = false`): with MODES the full
+    parser emits one `Metadata` event for it, a config entry; without MODES it is a step
+    (start, text, end) and no metadata event at all -/
+def C14_exToks : List Tok :=
+  [⟨.metaStart, ['>', '>'], 13⟩, ⟨.ws, [' '], 15⟩, ⟨.punct, ['['], 16⟩, ⟨.word, ['m'], 17⟩, ⟨.punct, [']'], 18⟩,
+   ⟨.colon, [':'], 19⟩, ⟨.ws, [' '], 20⟩, ⟨.word, ['s'], 21⟩]
+example : (runBlock (α := Rat) C14_exCs ⟨Gen.EXT_MODES⟩ false C14_exToks #[] none).1.toList.map Ev.isKey = [true] := by rfl
+example : (runBlock (α := Rat) C14_exCs ⟨0⟩ false C14_exToks #[] none).1.toList.map Ev.isKey = [false, false, false] := by rfl
+example : isConfigKey C14_exCs (Text.fromStr " [m]".toList 15) = true ∧ (Ext.mk Gen.EXT_MODES).has Gen.EXT_MODES = true :=
+  ⟨by rfl, by decide⟩
 
 /-! non-vacuity of "no front matter": an old-style metadata line followed by a step -/
 example : parseFrontmatter ⟨fun c => c == ' ', fun _ => false, fun _ => true, fun c => c == ' ' || c == '\n', fun _ => true⟩
